@@ -18,6 +18,7 @@ import cbor2
 import importlib.util
 import sys
 
+from collections.abc import Mapping
 from pathlib import Path
 from enum import Enum, unique
 from suit_generator.suit_kms_base import SuitKMSBase
@@ -153,6 +154,9 @@ class Signer(SuitEnvelopeSignerBase):
         self._context = context
         self._skip_signing = False
         self.envelope = input_envelope
+        if isinstance(self.envelope.value, Mapping) and not isinstance(self.envelope.value, dict):
+            # cbor2 >= 6 decodes maps inside tags as immutable mappings
+            self.envelope = cbor2.CBORTag(self.envelope.tag, dict(self.envelope.value))
 
         self.init_kms_backend(kms_script)
         self.already_signed_action(already_signed_action)
